@@ -831,12 +831,18 @@ def slot_rule(run, ctx):
             for p in fam_vm.fpaths(fancy["body"]):
                 v = S.ret_value(p)
                 if v is None:
+                    lets0 = {ev.a: ev.b for ev in p.events if ev.kind == "let"}
+                    if p.exit == "try-err" and any(ev.kind == "try-err" and H.subst_lets(ev.a or "", lets0) == "saves.get((2 * %s))" % I for ev in p.events):
+                        okp["beyond"] += 1       # `saves.get(2i)?` returns None for a slot beyond the saves
                     continue
                 lets = {ev.a: ev.b for ev in p.events if ev.kind == "let"}
                 rv = H.subst_lets(v, lets)
                 conds = [(H.subst_lets(ev.a, lets), ev.b) for ev in p.events if ev.kind == "cond"]
                 SL = "(2 * %s)" % I
                 beyond = [t for c_, t in conds if c_ == "(len(saves) <= %s)" % SL]
+                # `saves.get(2i)?` decides the same: staying on the path means the slot exists
+                if not beyond and any(ev.kind == "try-ok" and H.subst_lets(ev.a or "", lets) == "saves.get(%s)" % SL for ev in p.events):
+                    beyond = [False]
                 unset = [t for c_, t in conds if c_ == "(MAX == saves[%s])" % SL]
                 if rv == "None":
                     if beyond and beyond[0]:
